@@ -76,9 +76,10 @@ Qed.
 Lemma rm_file_eq s p :
   is_some (find_i (st_index s) p) = true ->
   is_dir_wt s p && negb (has_file s p) = false ->
+  existsb (fun f => under (wf_path f) p) (st_wt s) = false ->
   g_rm s p = s_rm s p.
 Proof.
-  intros H1 H2. unfold g_rm, s_rm. rewrite H2. destruct (find_i (st_index s) p); [reflexivity|discriminate].
+  intros H1 H2 H3. unfold g_rm, s_rm. rewrite H2, H3. destruct (find_i (st_index s) p); [reflexivity|discriminate].
 Qed.
 
 (* the file is as staged and the destination directory exists *)
